@@ -27,14 +27,22 @@ def _plain(o):
     return out
 
 
+def _fresh(x):
+    """an equal element that is a different object where Python allows one (tuples): "rebuilt from
+    its plain values" must not mean "from the very same element objects" """
+    if type(x) is tuple and x:
+        return tuple([_fresh(y) for y in x])
+    return x
+
+
 def _rebuild(o):
     S = serif()
     if isinstance(o, S.Table):
-        cols = [S.Vector(list(c), name=c.name) for c in o.cols()]
+        cols = [S.Vector([_fresh(x) for x in c], name=c.name) for c in o.cols()]
         if not cols:
             return S.Table({})
         return S.Table(cols)
-    return S.Vector(list(o))
+    return S.Vector([_fresh(x) for x in o])
 
 
 def _isnan(x):
